@@ -92,6 +92,8 @@ pub struct Monitor {
     reconnect_offered_ms: Option<u64>,
     /// the broker has written nothing since that transport was offered
     silent_handshake: bool,
+    handshake_wait_ms: Option<u64>,
+    idle_ms: Option<u64>,
     healthy: bool,
     completed_rels: Vec<u16>,
     expect_unsolicited: bool,
@@ -158,6 +160,8 @@ impl Monitor {
             errors: vec![],
             reconnect_offered_ms: None,
             silent_handshake: false,
+            handshake_wait_ms: None,
+            idle_ms: None,
             healthy: false,
             completed_rels: vec![],
             expect_unsolicited: false,
@@ -673,6 +677,12 @@ impl Monitor {
     /// once the configured connection timeout has passed (and not earlier)
     fn check_connect_timeout(&mut self, now: u64) {
         let Some(t0) = self.reconnect_offered_ms else { return };
+        // time spent waiting is part of the state as long as the verdict depends on it
+        self.handshake_wait_ms = if self.silent_handshake && self.errors.is_empty() {
+            Some((now - t0).min(self.conn_timeout_ms + 1500))
+        } else {
+            None
+        };
         if !self.silent_handshake {
             // the broker answered (in time or late): no claim
             return;
@@ -813,10 +823,14 @@ impl Monitor {
     }
 
     fn check_keepalive(&mut self, held: &Held, now: u64) {
+        self.idle_ms = None;
         if self.keep_alive_ms == 0 || !held.connected || !self.healthy {
             return;
         }
         let since = self.last_ping_ms.unwrap_or(self.conn_started_ms);
+        // the verdicts below depend on how much time has passed: it is part of the state
+        // (a client whose timer never fires would otherwise look unchanged for ever)
+        self.idle_ms = Some(now.saturating_sub(since).min(3 * self.keep_alive_ms));
         if now > since + self.keep_alive_ms {
             let d = format!("no PINGREQ for {}ms (last at {since}ms, now {now}ms), keep-alive {}ms", now - since, self.keep_alive_ms);
             self.v("ping_missing", d);
@@ -869,7 +883,7 @@ impl Monitor {
             (&self.ledger, &self.sent, &self.broker_pubs),
             (&self.to_client, &self.replies, &self.stale_in),
             (&self.in_aliases, &self.lenient_tags, &self.optional_replies),
-            (self.reconnect_offered_ms, self.silent_handshake, self.errors.len()),
+            (self.reconnect_offered_ms, self.silent_handshake, self.errors.len(), self.handshake_wait_ms, self.idle_ms),
             &self.carry,
             self.resumed,
             self.acks_in_order,
